@@ -143,11 +143,42 @@ CompoVerdict(r, A) ==
   IN { <<kd, CHOOSE k \in pts : bad(k) = kd>> : kd \in kinds }
      \cup (IF split THEN {<<"same_density_two_compositions", 0>>} ELSE {})
 
+(***************************************************************************)
+(* C16: boundary conditions.  A flagged surface that bounds a converted    *)
+(* cell yields exactly one entry of the right kind designating a SURF of   *)
+(* the file with the flagged surface's locus; nothing else yields an       *)
+(* entry; a flag on a macrobody is rejected.                               *)
+(***************************************************************************)
+RECURSIVE LeafSurfs(_)
+LeafSurfs(t) == CASE t[1] = "S" -> {AbsI(t[2])}
+                  [] t[1] \in {"C", "R"} -> {}
+                  [] t[1] = "N" -> LeafSurfs(t[2])
+                  [] OTHER -> UNION { LeafSurfs(t[i]) : i \in 2..Len(t) }
+BCVerdict(r) ==
+  LET D == r.deck  T == r.file
+      flagged == { s \in SeqSet(D.surfs) : s.bc # "" }
+      used == UNION { LeafSurfs(c.geom) : c \in { x \in SeqSet(D.cells) : x.u = 0 /\ x.imp # 0 } }
+  IN IF \E s \in flagged : IsBody(s)
+     THEN (IF r.result = "ok" THEN {<<"macrobody_flag_accepted", 0>>} ELSE {})
+     ELSE IF r.result # "ok" THEN {<<"crash", 0>>}
+     ELSE
+       LET bounding == { s \in flagged : s.n \in used /\ ~IsBody(s) }
+           entries == T.bc.items
+           kindOf(s) == IF s.bc = "*" THEN "REFLECTION" ELSE "COSINUS"
+           witOf(n) == { T.wit[i] : i \in { j \in 1..Len(T.wit) : T.wit[j].id = n } }
+           match(e, s) == e.kind = kindOf(s) /\ \E w \in witOf(e.id) : Proportional(w, MainQuad(D, s))
+       IN { <<"entry_missing_or_repeated", s.n>> :
+              s \in { x \in bounding : Cardinality({ i \in 1..Len(entries) : match(entries[i], x) }) # 1 } }
+          \cup { <<"entry_for_no_flagged_bounding_surface", i>> :
+                   i \in { j \in 1..Len(entries) : ~\E s \in bounding : match(entries[j], s) } }
+
 Clauses == IF "CLAUSES" \in DOMAIN IOEnv THEN IOEnv.CLAUSES ELSE "owner,valid"
 HasClause(c) == \E i \in 1..(Len(Clauses) - Len(c) + 1) : SubSeq(Clauses, i, i + Len(c) - 1) = c
 
 Verdict(r) ==
-  IF r.result # "ok" THEN [tid |-> r.tid, bad |-> {<<"crash", 0>>}, nowners |-> 0, nchecked |-> 0, ndeep |-> 0]
+  IF HasClause("bc") /\ r.result # "ok"
+  THEN [tid |-> r.tid, bad |-> BCVerdict(r), nowners |-> 0, nchecked |-> 0, ndeep |-> 0]
+  ELSE IF r.result # "ok" THEN [tid |-> r.tid, bad |-> {<<"crash", 0>>}, nowners |-> 0, nchecked |-> 0, ndeep |-> 0]
   ELSE LET A == IF HasClause("owner") \/ HasClause("compo") THEN Analysis(r) ELSE [n |-> 0]
            ov == IF HasClause("owner") THEN OwnerVerdict(r, A)
                  ELSE [bad |-> {}, nowners |-> 0, nchecked |-> 0, ndeep |-> 0]
@@ -155,7 +186,8 @@ Verdict(r) ==
            zv == IF HasClause("zeroimp") THEN ZeroImpVerdict(r) ELSE {}
            wv == IF HasClause("witness") THEN WitnessVerdict(r) ELSE {}
            cv == IF HasClause("compo") THEN CompoVerdict(r, A) ELSE {}
-       IN [tid |-> r.tid, bad |-> ov.bad \cup fv \cup zv \cup wv \cup cv, nowners |-> ov.nowners,
+           bv == IF HasClause("bc") THEN BCVerdict(r) ELSE {}
+       IN [tid |-> r.tid, bad |-> ov.bad \cup fv \cup zv \cup wv \cup cv \cup bv, nowners |-> ov.nowners,
            nchecked |-> ov.nchecked, ndeep |-> ov.ndeep]
 
 BlockVerdict(b) == LET tr == BlockTraces(b)
